@@ -2,12 +2,12 @@ from _common import *
 import statics
 def _g(gid, entry, define, bound):
     return Group(id=gid, prop='C19', harness='experiment.c', entry=entry, defines=[define], level='bounded-unwind', bound=bound, backend='sat', timeout=600, tier='quick', unwind=8,
-                 functions=['worker_thread_func', 'cimba_run_experiment'], also=['C10'],
+                 functions=['worker_thread_func', 'cimba_run_experiment'], also=['C10'], replay=replays.demo_replay('c19_dispenser_demo.c'),
                  stubs=['pthread_create = run the worker to completion at once (one legal schedule), pthread_join = bookkeeping', 'cmi_cpu_cores: arbitrary >= 1', 'cmi_mempool_cleanup: counter',
-                        'trial function: counting stub that lets other workers draw up to 2 indices while it runs', 'glibc pthread_cleanup_push/pop internals: no-ops'],
+                        'trial function: counting stub', '__atomic_fetch_add / __atomic_load_n wrapped: other workers may complete up to 2 draws before each atomic operation of this worker (interference at atomic-operation granularity)', 'glibc pthread_cleanup_push/pop internals: no-ops'],
                  assumes=['__atomic_fetch_add hands out every value exactly once (atomicity axiom); no interleaving of threads is explored', 'pthread_create succeeds (its result is ignored by the code)', 'cmi_cpu_cores() >= 1'])
 GROUPS = [
-    _g('C19.O1.worker', 'h_worker', 'H_WORKER', '<= 4 trials; arbitrary dispenser value at start; other workers draw <= 2 indices during each trial'),
+    _g('C19.O1.worker', 'h_worker', 'H_WORKER', '<= 4 trials; arbitrary dispenser value at start; other workers complete <= 2 draws before every atomic operation of this worker'),
     _g('C19.O2.run_experiment', 'h_run', 'H_RUN', '<= 3 trials, 1..3 cores, workers run one after another'),
 ]
 
